@@ -14,7 +14,7 @@ RULE = (
     "single-step cases: every (start value s < 2^16, byte b) pair, enumerated completely "
     "(distinct by construction; non-trivial = (s^b)&0xFF != 0 so that the polynomial "
     "feedback is exercised); string cases: all byte strings of length 0..2 from the default "
-    "start and seeded random strings (<= 4 KiB) with random split points and start values, "
+    "start and seeded random strings (<= 4 KiB) with random split points and start values, long strings of 4095..262147 bytes (random / constant / periodic; repeated calls on the same object, in-place changes), "
     "distinct by digest of (data, start, split)"
 )
 ASSUMPTIONS = [
@@ -29,6 +29,7 @@ NSTEP = 16
 def plan(tier, seed):
     jobs = [{"name": "step%02d" % i, "spec": {"kind": "step", "lo": i * 4096, "hi": (i + 1) * 4096}} for i in range(NSTEP)]
     jobs.append({"name": "short", "spec": {"kind": "short"}})
+    jobs.append({"name": "long", "spec": {"kind": "long", "reps": 1 if tier == "quick" else 12}})
     n = 20000 if tier == "quick" else 8000000
     k = 4 if tier == "quick" else 16
     for i in range(k):
@@ -37,7 +38,7 @@ def plan(tier, seed):
 
 
 def mandatory_bins(tier):
-    return ["step_pairs", "len0", "len1", "len2", "default_start", "split", "type_bytes", "type_bytearray", "type_memoryview", "type_list", "type_iterator", "type_generator", "catalogue_check_value"]
+    return ["step_pairs", "len0", "len1", "len2", "default_start", "split", "type_bytes", "type_bytearray", "type_memoryview", "type_list", "type_iterator", "type_generator", "catalogue_check_value", "long_input"]
 
 
 def finish(agg, tier):
@@ -87,6 +88,35 @@ def run_shard(spec, ctx):
         if got != 0x6F91:
             ctx.violation("catalogue_check_value", {"got": got, "expected": 0x6F91}, {"kind": "string", "data": b"123456789".hex(), "start": None})
         ctx.sample({"kind": "string", "data": "123456789", "crc": got})
+    elif kind == "long":
+        # long inputs around sizes at which a chunked / word-wise / table implementation could change behaviour, the same
+        # object checksummed repeatedly (memoised results), and equal content in different objects
+        rng = ctx.rng
+        for rep in range(spec["reps"]):
+            for ln in (4095, 4096, 4097, 8191, 8192, 8193, 16384, 65535, 65536, 65537, 100003, 262147):
+                for pat in ("random", "zero", "ff", "period3"):
+                    data = {"random": rng.randbytes(ln), "zero": bytes(ln), "ff": b"\xff" * ln, "period3": (b"\x01\x80\xfe" * (ln // 3 + 1))[:ln]}[pat]
+                    start = rng.choice((0xFFFF, 0, rng.randrange(65536)))
+                    exp = ref.crc16(data, start)
+                    ctx.ev()
+                    ctx.bin("long_input")
+                    ctx.distinct("long", ln, pat, start, data[:64])
+                    ctx.mon("crc8404B", 4)
+                    rp = {"kind": "long", "len": ln, "pattern": pat, "start": start}
+                    obj = bytearray(data) if ln % 2 else data
+                    g1 = f(obj, start)
+                    g2 = f(obj, start)
+                    g3 = f(bytes(data), (start + 1) % 65536)
+                    if g1 != exp or g2 != exp:
+                        ctx.violation("string_mismatch:long_input", {"len": ln, "pattern": pat, "start": start, "got": [g1, g2], "expected": exp}, rp)
+                    if g3 != ref.crc16(data, (start + 1) % 65536):
+                        ctx.violation("string_mismatch:same_data_other_start", {"len": ln, "pattern": pat}, rp)
+                    if isinstance(obj, bytearray):
+                        # the same (mutable) object with one byte changed: a result remembered per object would be stale
+                        obj[ln // 2] ^= 0x40
+                        if f(obj, start) != ref.crc16(bytes(obj), start):
+                            ctx.violation("string_mismatch:same_object_after_in_place_change", {"len": ln, "pattern": pat}, rp)
+        ctx.sample({"kind": "long", "lengths": "4095..262147"})
     elif kind == "rand":
         rng = ctx.rng
         for i in range(spec["n"]):
@@ -146,6 +176,8 @@ def replay(rec, ctx):
         ctx.ev()
         if got != exp:
             ctx.violation("step_mismatch", {"got": got, "expected": exp}, rec)
+    elif rec["kind"] == "long":
+        run_shard({"kind": "long", "reps": 1}, ctx)
     else:
         data = bytes.fromhex(rec["data"])
         start = rec.get("start")
